@@ -72,7 +72,21 @@ let answer (d : dump) (tree : obj option) (raws : Stdlib.String.t array) (q : St
         match get_obj_inside_cpuset_by_depth lv set (n_of_int i) with
         | Some o -> Stdlib.Printf.sprintf "%d:%d" (int_of_n o.o_id) (int_of_z (get_obj_index_inside_cpuset lv set o))
         | None -> "-") in
-      (Stdlib.Printf.sprintf "%d %s" nb (Stdlib.String.concat "," items), "ok")
+      let alls = Stdlib.List.map (fun (o : dobj) ->
+        Stdlib.Printf.sprintf "%d:%d" (int_of_n o.o_id) (if o.o_cs = None then -2 else int_of_z (get_obj_index_inside_cpuset lv set o))) lv in
+      let m = Stdlib.Printf.sprintf "%d %s | %s" nb (Stdlib.String.concat "," items) (if alls = [] then "-" else Stdlib.String.concat "," alls) in
+      (* the C answer against the brute-force list *)
+      let pair x = (match split_on ':' x with [i; k] -> (int_of_string i, int_of_string k) | _ -> failwith "pair") in
+      let v = (match rw with
+        | [cnb; citems; "|"; calls] ->
+            (try
+              let its = Stdlib.List.map (fun x -> if x = "-" then (None, Z0) else let (i, k) = pair x in (Some (n_of_int i), z_of_int k)) (split_on ',' citems) in
+              let als = if calls = "-" then [] else Stdlib.List.map (fun x -> let (i, k) = pair x in (n_of_int i, z_of_int k)) (split_on ',' calls) in
+              if Stdlib.List.exists (fun (o : dobj) -> o.o_cs = None) lv then "ok"
+              else verdict "inside_index_roundtrip" (nb_inside_spec lv set (n_of_int (int_of_string cnb)) its als)
+            with _ -> "FAIL nb-inside-format")
+        | _ -> "FAIL nb-inside-format") in
+      (m, v)
   | ["ancestor"; a; b] ->
       (match getd d (int_of_string a), getd d (int_of_string b) with
        | Some oa, Some ob ->
